@@ -190,3 +190,123 @@ def _mk(E):
             return E.concrete.get(name, z3.BitVecVal(0, W))
         return z3.BitVec(name, W)
     return mk
+
+
+# ----------------------------------------------------------------------------- C16: Json<M>
+import re as _re
+
+_CONV = _re.compile(r"%(l{0,2})([dius])")
+
+
+def json_tokens(t: L.Ty, v, out=None):
+    """the token stream the property prescribes: object keyed by field names in number order, arrays as lists,
+    numbers (signed where the value is negative), true/false"""
+    out = [] if out is None else out
+    r = L.resolve(t)
+    if isinstance(r, L.Message):
+        out.append(("lit", "{"))
+        fs = r.sorted_fields()
+        for i, f in enumerate(fs):
+            out.append(("lit", '"%s":' % f.name))
+            json_tokens(f.type, v[f.name], out)
+            if i + 1 < len(fs):
+                out.append(("lit", ","))
+        out.append(("lit", "}"))
+    elif isinstance(r, L.Array):
+        out.append(("lit", "["))
+        for k in range(r.cap):
+            json_tokens(r.elem, v[k], out)
+            if k + 1 < r.cap:
+                out.append(("lit", ","))
+        out.append(("lit", "]"))
+    elif isinstance(r, L.Bool):
+        out.append(("bool", v != 0))
+    else:
+        out.append(("num", v))
+    return out
+
+
+def _merge_lits(tokens):
+    out = []
+    for t in tokens:
+        if t[0] == "lit" and out and out[-1][0] == "lit":
+            out[-1] = ("lit", out[-1][1] + t[1])
+        elif t[0] == "lit" and t[1] == "":
+            continue
+        else:
+            out.append(t)
+    return out
+
+
+def run_json(E: EN.Engine, prog: CI.Program, msg: L.Message, label="json"):
+    """Json<M>(m, buf): the sequence of BpJsonFormatString calls (format string + promoted arguments; what vsprintf prints for a
+    conversion is external) denotes exactly the prescribed JSON value for every in-range struct content."""
+    it = CI.Interp(prog, big=False, oblige=_collector(E))
+    sname = c_struct_name(msg)
+    if sname not in prog.types.records:
+        raise CI.CUnsupported("generated header has no struct %s" % sname)
+    st = TStruct(sname)
+    m = it.alloc("*m", it.T.sizeof(st), None, kind="arg")
+    vleaves: list = []
+    v = L.fresh_value(msg, "v", vleaves, _mk(E))
+    for name, term, r in vleaves:
+        E.assume(L.in_range(term, r))
+    _fill(it, m, 0, st, msg, v, [], False, E)
+    m.writes.clear()
+    tokens: list = []
+
+    def fmtstring(interp, args, types):
+        fmt = interp.c_string(args[1])
+        rest = list(zip(args[2:], (types or [None] * len(args))[2:]))
+        pos = 0
+        for mm in _CONV.finditer(fmt):
+            tokens.append(("lit", fmt[pos:mm.start()]))
+            pos = mm.end()
+            if not rest:
+                E.oblige("%s/format-args" % label, False, kind="ub")
+                continue
+            a, at = rest.pop(0)
+            ls, conv = mm.group(1), mm.group(2)
+            if conv == "s":
+                if isinstance(a, CI.Choice):
+                    sa, sb = interp.c_string(a.a), interp.c_string(a.b)
+                    if (sa, sb) == ("true", "false"):
+                        tokens.append(("bool", a.cond))
+                    elif (sa, sb) == ("false", "true"):
+                        tokens.append(("bool", z3.Not(a.cond)))
+                    else:
+                        tokens.append(("lit?", (sa, sb)))
+                else:
+                    tokens.append(("lit", interp.c_string(a)))
+                continue
+            cw = 64 if ls else 32
+            csigned = conv in "di"
+            abits, asigned = at.bits, at.signed
+            av = a if z3.is_expr(a) else z3.BitVecVal(a, abits)
+            if abits > cw:
+                E.oblige("%s/conversion-narrower-than-argument(%%%s%s on %d-bit)" % (label, ls, conv, abits), False, kind="ub")
+                av, abits = z3.Extract(cw - 1, 0, av), cw
+            if abits < cw:
+                av = z3.SignExt(cw - abits, av) if asigned else z3.ZeroExt(cw - abits, av)
+            tokens.append(("num", z3.SignExt(W - cw, av) if csigned else z3.ZeroExt(W - cw, av)))
+        tokens.append(("lit", fmt[pos:]))
+        return None
+    it.externals["BpJsonFormatString"] = fmtstring
+    buf = it.alloc("json-buffer", 8, 0, kind="arg")
+    E.cover(label + "/requires")
+    it.frames.append({})
+    try:
+        it.call_func("Json" + sname, [CI.Ptr(m, 0), CI.Ptr(buf, 0)])
+    except CI.StopRun:
+        return
+    got = _merge_lits(tokens)
+    want = _merge_lits(json_tokens(msg, v))
+    E.oblige("%s/token-count" % label, z3.BoolVal(len(got) == len(want)))
+    for k, (g, w) in enumerate(zip(got, want)):
+        if g[0] != w[0]:
+            E.oblige("%s/token[%d]-kind(%s vs %s)" % (label, k, g[0], w[0]), False)
+        elif g[0] == "lit":
+            E.oblige("%s/token[%d]=%s" % (label, k, w[1][:30]), z3.BoolVal(g[1] == w[1]))
+        else:
+            E.oblige("%s/token[%d]-value" % (label, k), g[1] == w[1])
+    E.oblige(label + "/struct-untouched", z3.BoolVal(not m.writes), kind="frame")
